@@ -30,6 +30,7 @@ pub fn plan() -> Plan {
         quick_histories: 300,
         thorough_histories: 40000,
         s5: None,
+        enumerate_session_end: None,
     }
 }
 
